@@ -52,7 +52,8 @@ def twin_case(case):
       x = type(sys.link.transform)(pos=jp.asarray(np.array(a['pos'])[t]), rot=jp.asarray(np.array(a['rot'])[t]))
       c = contact.get(sys, x)
       dmin.append(float(jp.min(c.dist)) if c is not None else 1.0)
-    out['guard_before'], out['guard_after'] = int(dmin[0] > 1e-3), int(dmin[1] > 1e-3)
+    out['guard_before'] = int(dmin[0] > (1e-4 if case.get('before_only') else 1e-3))
+    out['guard_after'] = 1 if case.get('before_only') else int(dmin[1] > 1e-3)
     out['dmin'] = dmin
   else:
     q = np.array(a['q'])
@@ -109,22 +110,36 @@ def run(ctx):
       twin.append({'what': 'separated', 'xml_a': xa, 'xml_b': xb, 'pipe': pipe, 'q': qv, 'qd': qdv, 'steps': steps, 'acts': None})
     # limits: needs at least one limited joint
     lim_idx, lo, hi, k = [], [], [], 0
-    for l in m['links']:
+    ml = json.loads(json.dumps(m))
+    for l in ml['links']:
       if l['root'] == 'free':
         k += 7
         continue
       for jt in l['stack']:
         if jt['limited']:
+          # a range around the current coordinate (so it usually does NOT contain zero), never reached within 5 steps
+          a, b = round((qv[k] - r.uniform(0.3, 0.6)) * 1000), round((qv[k] + r.uniform(0.3, 0.6)) * 1000)
+          jt['lo'], jt['hi'] = [a, 1000], [b, 1000]
           lim_idx.append(k)
-          lo.append(render.fl(jt['lo']))
-          hi.append(render.fl(jt['hi']))
+          lo.append(a / 1000)
+          hi.append(b / 1000)
         k += 1
     if lim_idx:
-      xa = render.render(m, limits=True)
-      xb = render.render(m, limits=False)
+      xa = render.render(ml, limits=True)
+      xb = render.render(ml, limits=False)
       for pipe in PIPES:
         twin.append({'what': 'limits', 'xml_a': xa, 'xml_b': xb, 'pipe': pipe, 'q': qv, 'qd': qdv, 'steps': steps, 'acts': None,
                      'lim_idx': lim_idx, 'lo': lo, 'hi': hi})
+  # near-touching but separated primitives approaching the ground fast: contacts are detected at the pre-step pose, so
+  # for the spring and generalized pipelines a separated state steps exactly like the collision-free twin
+  for _ in range(3 if q else 40):
+    shape = r.choice(['sphere', 'box', 'capsule'])
+    size, dens, gap, v = r.uniform(0.05, 0.3), r.uniform(200, 3000), r.uniform(0.0005, 0.003), r.uniform(0.5, 3.0)
+    xa, _ = scene(shape, size, dens, gap, dt=0.002)
+    xb = xa.replace('<geom name="ground" type="plane" size="0 0 1"/>', '<geom name="ground" type="plane" size="0 0 1" contype="0" conaffinity="0"/>')
+    for pipe in ('generalized', 'spring'):
+      twin.append({'what': 'separated', 'xml_a': xa, 'xml_b': xb, 'pipe': pipe, 'q': None, 'qd': [0, 0, -v, 0, 0, 0], 'steps': 1,
+                   'acts': None, 'before_only': True})
   traces, info = [], []
   for case, out in par.run('harness.drivers.c06', 'twin_case', twin):
     if 'brax_error' in out:
